@@ -131,6 +131,8 @@ type Oblig struct {
 	Done    bool
 	Trace   []string
 	Inputs  []InputVar
+	Outputs []InputVar
+	X       *Exec
 }
 
 type InputVar struct {
@@ -168,6 +170,7 @@ type Exec struct {
 	inQuant      int
 	merged       int
 	noMerge      bool
+	outputs      []InputVar
 }
 
 func NewExec(w *World) *Exec {
@@ -548,6 +551,35 @@ func (x *Exec) bind(st *State, t *Term, hint string) *Term {
 // sub-location helpers
 func (l *Loc) field(name string, ft types.Type) *Loc {
 	return &Loc{Base: l.Base, Root: l.Root, Path: l.Path + "." + name, Idx: l.Idx, T: ft}
+}
+
+// signHint annotates t with a sign bound when the path condition implies one (asked of the
+// exploration session), so that Go's truncating division can be rendered as plain div/mod.
+func (x *Exec) signHint(st *State, t *Term) *Term {
+	if t.lit != nil || t.sort != SInt || x.inQuant > 0 {
+		return t
+	}
+	if t.lo != nil && t.lo.Sign() >= 0 {
+		return t
+	}
+	if t.hi != nil && t.hi.Sign() < 0 {
+		return t
+	}
+	key := "sign:" + t.s
+	if v, ok := st.ghost[key]; ok {
+		if v.isTrue() {
+			return WithBounds(t, bigI(0), nil)
+		}
+		return t
+	}
+	raw := *t
+	raw.lo, raw.hi = nil, nil
+	if x.sess.CheckWith(app(SBool, "<", &raw, IntLit(0))) == Unsat {
+		st.ghost[key] = TTrue
+		return WithBounds(t, bigI(0), nil)
+	}
+	st.ghost[key] = TFalse
+	return t
 }
 
 func sortedKeys(m map[string]*Term) []string {
